@@ -6,6 +6,7 @@ import warnings
 
 from common import Outcome, close, f2h, h2f, np, rng_for, run_driver
 
+RULE_ADDENDA = ('Kuiper p-value vs the model (lattice ties skipped); Welch trim / permutations; options x detector reuse; chi-square labels from an object column')
 LEVEL = "proof"
 EXPLANATION = ("Theorems (Lean) cover the repo-owned part: keyword forwarding (every option reaches the test exactly once), the chi-square table and statistic "
                "(relabelling / column-order / swap invariance), Mann-Whitney U, Welch t/df, Kuiper V vs KS D. scipy's p-value routines are opaque functions: "
